@@ -86,6 +86,7 @@ class NumberMulExpr(base.RawTreeModel):
 
     @classmethod
     def from_children(cls, operands: tuple[NumberAtomExpr, ...], ops: tuple[MulOp, ...]) -> Self:
+        internal.check_detachable([*operands, *ops])
         tokens = []
         for operand, op in zip(operands, ops):
             tokens.extend(operand.detach())
